@@ -22,6 +22,10 @@ type Plan struct {
 	FailAt      int // index (0-based) of the fallible call to fail; -1 = none
 	FailRepeat  int // number of consecutive fallible calls to fail starting at FailAt (>=1)
 	CrashCommit int // index (0-based) of the commit before which the world stops; -1 = none
+	// FailCommit > 0: the FailCommit-th commit boundary (1-based) reports an injected error
+	// instead of being applied (once). Used by scheduler scenarios, where the index of a call
+	// depends on the schedule but the order of commits of one thread does not.
+	FailCommit int
 }
 
 // NoPlan does nothing.
@@ -147,7 +151,15 @@ func (t *wtx) Commit() error {
 	k := d.Commits
 	d.Commits++
 	crash := !d.Disarmed && d.Plan.CrashCommit >= 0 && k == d.Plan.CrashCommit
+	failThis := !d.Disarmed && d.Plan.FailCommit > 0 && k+1 == d.Plan.FailCommit
+	if failThis {
+		d.Injected++
+	}
 	d.mu.Unlock()
+	if failThis {
+		t.w.Rollback() // the batch is dropped, as a failed leveldb.Write would leave it
+		return ErrInjected
+	}
 	if crash {
 		// the commit is NOT applied; nothing else is flushed; the caller never returns
 		panic(Crash{Commit: k})
